@@ -78,6 +78,16 @@ func isCompoundSlice(typ types.Type) bool {
 	return ok && !isByte(t.Elem())
 }
 
+// isCompoundArray reports whether typ is an array (or a pointer to an array)
+// of anything but bytes.
+func isCompoundArray(typ types.Type) bool {
+	if p, ok := typ.Underlying().(*types.Pointer); ok {
+		typ = p.Elem()
+	}
+	t, ok := typ.Underlying().(*types.Array)
+	return ok && !isByte(t.Elem())
+}
+
 // isByteSliceOrArray reports whether typ is []byte or [N]byte, both of which
 // are represented as a Buffer.
 func isByteSliceOrArray(typ types.Type) bool {
